@@ -4,6 +4,7 @@
 //!   fibsim replay <file>
 //!   fibsim selftest determinism [--runs N]
 
+mod cache;
 mod chan;
 mod core;
 mod lock;
